@@ -108,7 +108,8 @@ Inductive ev :=
 | EvMultiRecv                 (* RecvOnce refused: MultiRecvErr, nothing read *)
 | EvAuthReply (code : Z)      (* PreSend of AUTH_REPLY written, status code *)
 | EvAuthReplyFailed           (* PreSend failed (peer gone) *)
-| EvNextAccept                (* PostAccept of the plugins placed behind the checker *)
+| EvPlugin (after : bool)     (* PostAccept of another plugin placed before / after the checker was called *)
+| EvNextAccept                (* PostAccept of the last plugin of the chain (the harness' recorder) *)
 | EvAccept                    (* status -> ok, read loop started, session indexed *)
 | EvReject                    (* sess.Close(): socket closed; never indexed *)
 | EvHook (stage : N)          (* a per-message plugin stage *)
@@ -140,15 +141,26 @@ Definition is_app (e : ev) : bool :=
 
 Definition is_exchange (e : ev) : bool :=
   match e with
-  | EvRecv | EvMultiRecv | EvAuthReply _ | EvAuthReplyFailed | EvAccept | EvReject => true
+  | EvRecv | EvMultiRecv | EvAuthReply _ | EvAuthReplyFailed | EvPlugin _ | EvNextAccept
+  | EvAccept | EvReject => true
   | _ => false
   end.
 
 (* ---- the user-supplied checker, as the harness' family of checkers ---- *)
+(* behaviour of a PostAccept plugin other than the checker (plugin.go postAccept: the first
+   non-OK status ends the chain; a panic is recovered into a 500 status) *)
+Inductive hookb := HOk | HReject | HPanic.
+Definition hook_fails (h : option hookb) : bool :=
+  match h with None | Some HOk => false | Some _ => true end.
+
 Record checker := mkChecker {
   ck_recvs : nat;                 (* calls of RecvOnce: 0, 1, or more *)
   ck_propagate : bool;            (* returns the status of a refused second call *)
-  ck_verify : bytes -> bool }.    (* verdict on the received info *)
+  ck_verify : bytes -> bool;      (* verdict on the received info *)
+  ck_panic : nat;                 (* 0: never; 1: the checker function panics before any RecvOnce;
+                                     2: it panics after its RecvOnce calls (in its verify code) *)
+  ck_before : option hookb;       (* a PostAccept plugin registered before the checker *)
+  ck_after : option hookb }.      (* ... and one registered behind it *)
 
 Inductive recv_res := RInfo (info : bytes) | RStat (code : Z).
 
@@ -193,7 +205,7 @@ Section Server.
     | None => if ck_verify ck [] then 0%Z else code_forbidden
     end.
 
-  Inductive phase := Preparing | Running (hdr : bool) | Closed.
+  Inductive phase := Fresh | Preparing | Running (hdr : bool) | Closed.
 
   Record st := mkSt {
     ph : phase; buf : bytes; eof : bool; gone : bool;
@@ -202,20 +214,25 @@ Section Server.
   Definition emit (s : st) (es : list ev) : st :=
     mkSt (ph s) (buf s) (eof s) (gone s) (accepted s) (indexed s) (trace s ++ es).
 
-  (* the rest of PostAccept and of ServeConn once the read (if any) is done *)
+  (* a non-OK status or a recovered panic anywhere in the chain: ServeConn closes the session,
+     which was never indexed *)
+  Definition reject_with (s : st) (rest : bytes) (es : list ev) : st :=
+    mkSt Closed rest (eof s) (gone s) false false (trace s ++ es ++ [EvReject; EvDisconnect]).
+
+  (* the rest of the checker's PostAccept, of the chain behind it and of ServeConn once the
+     read (if any) is done *)
   Definition finish_accept (ck : checker) (s : st) (r : option recv_res) (rest : bytes) : st :=
     let pre := (match r with Some _ => [EvRecv] | None => [] end)
                ++ (if Nat.leb 2 (ck_recvs ck) then [EvMultiRecv] else []) in
     let c := verdict_code ck r in
-    if gone s then
-      mkSt Closed rest (eof s) true false false
-           (trace s ++ pre ++ [EvAuthReplyFailed; EvReject; EvDisconnect])
+    if Nat.eqb (ck_panic ck) 2 then reject_with s rest pre          (* no reply is ever sent *)
+    else if gone s then reject_with s rest (pre ++ [EvAuthReplyFailed])
     else if Z.eqb c 0 then
-      mkSt (Running false) rest (eof s) false true true
-           (trace s ++ pre ++ [EvAuthReply 0; EvNextAccept; EvAccept])
-    else
-      mkSt Closed rest (eof s) false false false
-           (trace s ++ pre ++ [EvAuthReply c; EvReject; EvDisconnect]).
+      let aft := match ck_after ck with Some _ => [EvPlugin true] | None => [] end in
+      if hook_fails (ck_after ck) then reject_with s rest (pre ++ [EvAuthReply 0] ++ aft)
+      else mkSt (Running false) rest (eof s) false true true
+                (trace s ++ pre ++ [EvAuthReply 0] ++ aft ++ [EvNextAccept; EvAccept])
+    else reject_with s rest (pre ++ [EvAuthReply c]).
 
   (* context.go: what one frame read by the loop causes *)
   Definition reply_events (g : bool) (seq code : Z) : list ev :=
@@ -257,7 +274,13 @@ Section Server.
     | S n' =>
         match ph s with
         | Closed => s
+        | Fresh =>
+            let s1 := mkSt Preparing (buf s) (eof s) (gone s) (accepted s) (indexed s)
+                           (trace s ++ match ck_before ck with Some _ => [EvPlugin false] | None => [] end) in
+            if hook_fails (ck_before ck) then reject_with s (buf s) [EvPlugin false]
+            else pump_fuel ck n' s1
         | Preparing =>
+            if Nat.eqb (ck_panic ck) 1 then reject_with s (buf s) [] else
             match ck_recvs ck with
             | O => pump_fuel ck n' (finish_accept ck s None (buf s))
             | S _ =>
@@ -287,7 +310,7 @@ Section Server.
         end
     end.
 
-  Definition pump (ck : checker) (s : st) : st := pump_fuel ck (S (S (length (buf s)))) s.
+  Definition pump (ck : checker) (s : st) : st := pump_fuel ck (S (S (S (length (buf s))))) s.
 
   Inductive input := Bytes (b : bytes) | Eof | Gone.
 
@@ -301,7 +324,7 @@ Section Server.
 
   Definition step (ck : checker) (s : st) (i : input) : st := pump ck (feed s i).
 
-  Definition init : st := mkSt Preparing [] false false false false [].
+  Definition init : st := mkSt Fresh [] false false false false [].
 
   Definition run (ck : checker) (ins : list input) : st :=
     fold_left (step ck) ins (pump ck init).
